@@ -62,15 +62,42 @@ fn edit_word(rng: &mut Rng, w: &str, edits: usize) -> String {
 fn long_close_case(rng: &mut Rng, case: i64) -> Value {
     let wl = rng.range(150, 220);
     let word: String = (0..wl).map(|_| char::from(b'a' + rng.below(6) as u8)).collect();
-    let mut cands: Vec<String> = vec![];
-    for _ in 0..rng.range(3, 7) {
-        let k = wl - rng.range(10, 30);
-        let j = rng.range(60, 85);
-        let mut c: String = word.chars().take(k).collect();
-        for _ in 0..j {
-            c.push('Z');
+    let junk = if rng.chance(1, 2) { 'Z' } else { '~' };
+    // all (prefix length k, junk length j) shapes; ratio = 2k / (wl + k + j)
+    let mut shapes: Vec<(usize, usize)> = vec![];
+    for k in (wl - 30)..(wl - 8) {
+        for j in 55..90 {
+            shapes.push((k, j));
         }
-        cands.push(c);
+    }
+    // pick a random shape and its closest distinct neighbours by ratio (differences of ~1e-5 and less)
+    let (k0, j0) = *rng.pick(&shapes);
+    let r0 = 2.0 * k0 as f64 / (wl + k0 + j0) as f64;
+    let mut near: Vec<(f64, usize, usize)> = shapes
+        .iter()
+        .filter(|(k, j)| (*k, *j) != (k0, j0) && 2 * k * (wl + k0 + j0) != 2 * k0 * (wl + k + j))
+        .map(|(k, j)| ((2.0 * *k as f64 / (wl + k + j) as f64 - r0).abs(), *k, *j))
+        .collect();
+    near.sort_by(|a, b| a.partial_cmp(b).unwrap());
+    let mut picks = vec![(k0, j0)];
+    for (_, k, j) in near.iter().take(rng.range(2, 4)) {
+        picks.push((*k, *j));
+    }
+    picks.push(*rng.pick(&shapes));
+    let mut cands: Vec<String> = picks
+        .iter()
+        .map(|(k, j)| {
+            let mut c: String = word.chars().take(*k).collect();
+            for _ in 0..*j {
+                c.push(junk);
+            }
+            c
+        })
+        .collect();
+    // shuffle
+    for i in (1..cands.len()).rev() {
+        let j = rng.below(i + 1);
+        cands.swap(i, j);
     }
     let nres = rng.range(1, 4);
     let (p, q) = (1u32, 2u32);
